@@ -344,6 +344,8 @@ def run(ctx):
     c13.framing(ctx, "C14.4")
     c14_4_cursor(ctx, seen)
     c14_5_trust(ctx, seen)
+    from . import pycodec
+    pycodec.run(ctx, "C14.W", parts=("bytes",))
 
 
 def c14_1(ctx, seen):
